@@ -39,7 +39,6 @@ EXEMPT = {
 TC = 'TypeConversion.c'
 SECTIONS = {'CIntToPy': 'to_py_function', 'CIntFromPy': 'from_py_function'}
 FROZEN_API = {'PyLong_AsInt': 'int'}      # https://docs.python.org/3.13/c-api/long.html#c.PyLong_AsInt
-MUTATIONS = []
 
 
 def _norm_type(t):
@@ -87,7 +86,7 @@ def rule_ctx(ctx):
                           % (s.qual, sec, sorted(items), v))
             nk = _name_key(cat, sec)
             impl = P.section_texts(cat, TC, sec).get('impl')
-            if impl is None or not re.search(r'[\s*]\{\{%s\}\}\s*\([^;{]*\)\s*\{' % nk, impl.raw):
+            if impl is None or not re.search(r'[\s*]\{\{%s\}\}\s*\((?:[^;{]|\{\{\w+\}\})*\)\s*\{' % nk, impl.raw):
                 r.violate('%s:impl-name' % key, 'Cython/Utility/' + TC, impl.line if impl else 1,
                           '%s.proto declares {{%s}}(...) but the implementation part does not define a function of that name' % (sec, nk))
             if nk in items:
@@ -162,6 +161,9 @@ def _error_condition_paths(ix, cls, fn):
         if is_self_attr(t):
             c = const_attr(t.attr)
             return None if c is None else bool(c[1])
+        if isinstance(t, ast.Name):
+            lst = next((f for f in st if isinstance(f, tuple) and f[0] == 'list' and f[1] == t.id), None)
+            return None if lst is None else bool(lst[2])
         if isinstance(t, ast.Compare) and len(t.ops) == 1 and is_self_attr(t.left) and isinstance(t.comparators[0], ast.Constant) and t.comparators[0].value is None:
             c = const_attr(t.left.attr)
             if c is None:
@@ -245,7 +247,7 @@ def _error_condition_paths(ix, cls, fn):
 
 def rule_sent(ctx):
     ix, cat = ctx.index, ctx.cat
-    r = Rule('C05-SENT', 'the failure value of the from-Python converters is ({{TYPE}}) -1 everywhere, and error_condition of every class using the template tests PyErr_Occurred() (and exactly -1 if it compares)', floor=20)
+    r = Rule('C05-SENT', 'the failure value of the from-Python converters is ({{TYPE}}) -1 everywhere, and error_condition of every class using the template tests PyErr_Occurred() (and exactly -1 if it compares)', floor=27)
     impl = P.section_texts(cat, TC, 'CIntFromPy').get('impl')
     ver = P.section_texts(cat, TC, 'CIntFromPyVerify')
     if impl is None:
@@ -329,5 +331,262 @@ def rule_sent(ctx):
     return r
 
 
+
+# =============================================================================================== DIGITS
+def _join_default(ctx):
+    tree = ctx.parse('Cython/Utility/__init__.py')
+    fn = tables.find_function(tree, 'pylong_join')
+    if fn is None:
+        raise AnalysisError('Cython.Utility.pylong_join vanished')
+    names = [a.arg for a in fn.args.args]
+    if names[:1] != ['count'] or 'join_type' not in names or 'digits_ptr' not in names:
+        raise AnalysisError('pylong_join signature changed: %s' % names)
+    defaults = dict(zip(names[len(names) - len(fn.args.defaults):], fn.args.defaults))
+    d = defaults.get('join_type')
+    if not (isinstance(d, ast.Constant) and isinstance(d.value, str)):
+        raise AnalysisError('pylong_join has no constant default join_type')
+    return names, d.value
+
+
+def _digit_sites(raw, argnames):
+    """[(offset, loop vars, count arg src, digits name, join type src or None, tested var or None, verify func type or None, declared ptr ok)]"""
+    out = []
+    loops = []
+    for kind, code, pos in P.tempita_code_tokens(raw):
+        if kind == 'for':
+            m = re.match(r'(.+?)\s+in\s+(.+)$', code, re.S)
+            loops.append((m.group(1).strip(), pos))
+        elif kind == 'endfor':
+            loops.pop()
+        elif kind == 'expr' and 'pylong_join' in code:
+            try:
+                e = ast.parse(code, mode='eval').body
+            except SyntaxError:
+                raise AnalysisError('cannot parse template expression %r' % code)
+            for c in ast.walk(e):
+                if not (isinstance(c, ast.Call) and isinstance(c.func, ast.Name) and c.func.id == 'pylong_join'):
+                    continue
+                bound = dict(zip(argnames, c.args))
+                bound.update({k.arg: k.value for k in c.keywords})
+                cnt = bound.get('count')
+                dp = bound.get('digits_ptr')
+                jt = bound.get('join_type')
+                start = loops[-1][1] if loops else 0
+                seg = raw[start:pos]
+                tests = re.findall(r'\bsize\s*==\s*\{\{\s*(\w+)\s*\}\}', seg)
+                fstart = max(raw.rfind('\nstatic ', 0, pos), 0)
+                dname = dp.value if isinstance(dp, ast.Constant) else 'digits' if dp is None else None
+                declared = dname is not None and re.search(r'\bdigit\s*\*\s*%s\b' % re.escape(dname), raw[fstart:pos]) is not None
+                mv = re.search(r'__PYX_VERIFY_RETURN_INT(?:_EXC)?\s*\(\s*\{\{TYPE\}\}\s*,\s*([^,()]+?)\s*,\s*$', raw[:pos])
+                out.append((pos, [l[0] for l in loops], node_src(cnt) if cnt is not None else None, dname, node_src(jt) if jt is not None else None,
+                            tests[-1] if tests else None, mv.group(1) if mv else None, declared))
+    return out
+
+
+def rule_digits(ctx):
+    cat = ctx.cat
+    r = Rule('C05-DIGITS', 'in the {{for _size}} blocks of CIntFromPy the digit count tested is the count joined, the digits pointer is the declared one, default-typed joins are verified as that type', floor=5)
+    impl = P.section_texts(cat, TC, 'CIntFromPy').get('impl')
+    raw = impl.raw
+    if not re.search(r'\{\{py:\s*from\s+Cython\.Utility\s+import\s+[^}]*\bpylong_join\b', raw):
+        raise AnalysisError('CIntFromPy no longer imports pylong_join from Cython.Utility')
+    argnames, default = _join_default(ctx)
+    rel = 'Cython/Utility/' + TC
+    for n, (pos, loops, cnt, dname, jt, tested, vtype, declared) in enumerate(_digit_sites(raw, argnames)):
+        line = impl.line + raw[:pos].count('\n')
+        fn = re.findall(r'\nstatic [^\n(]*?(\w*\{\{\w+\}\}\w*|\w+)\s*\(', raw[:pos])
+        key = 'CIntFromPy:%s:join#%d' % (fn[-1].replace('{{', '').replace('}}', '') if fn else '?', n)
+        r.inst(key, sample='%s: size == {{%s}} ... pylong_join(%s, %r, %s) verified as %s' % (key, tested, cnt, dname, jt, vtype))
+        if not loops or cnt not in loops:
+            r.violate(key + ':count', rel, line, 'pylong_join(%s, ...) does not join the loop variable of its {{for}} block (%s): the number of digits read differs from the digit count handled'
+                      % (cnt, loops or 'none'))
+        elif tested is None:
+            r.violate(key + ':untested', rel, line, 'the block joining %s digits does not test `size == {{%s}}` first: digits beyond ob_size are read' % (cnt, cnt))
+        elif tested != cnt:
+            r.violate(key + ':count', rel, line, 'the block tests `size == {{%s}}` but joins {{%s}} digits: a value with %s digits is assembled from a different number of digits'
+                      % (tested, cnt, tested))
+        if not declared:
+            r.violate(key + ':digits', rel, line, 'pylong_join reads from %r, which is not a `digit*` declared in the enclosing function' % dname)
+        if jt is None and vtype is not None and _norm_type(vtype) != _norm_type(default):
+            r.violate(key + ':jointype', rel, line, 'the joined value has type %r (pylong_join default) but is range-checked by __PYX_VERIFY_RETURN_INT as %r: '
+                      'the comparison value != (func_type)(target)value is done in another type' % (default, vtype))
+    pcs = _digit_sites("static T f(PyObject *x) {\n const digit* digits = d(x);\n{{for _size in (2, 3)}}\nif (size == {{_size}}) { return {{pylong_join(_size-1, 'digits')}}; }\n{{endfor}}\n}", argnames)
+    r.positive_control(len(pcs) == 1 and pcs[0][2] != pcs[0][5], 'join of _size-1 digits under size == _size')
+    return r
+
+
+# =============================================================================================== API
+def _api_type(api, name, what):
+    """C type text of the return value (what='ret') or the single parameter (what='param') of a C-API function."""
+    if name in api:
+        ret, params = api[name]
+        if what == 'ret':
+            return _norm_type(ret)
+        if len(params) == 1:
+            return _norm_type(re.sub(r'\b[A-Za-z_]\w*$', '', params[0]).strip() if re.search(r'\s[A-Za-z_]\w*$', params[0]) and not re.fullmatch(r'(unsigned |signed )?(long long|long|int|short|char)', params[0]) else params[0])
+        return None
+    if what == 'ret' and name in FROZEN_API:
+        return FROZEN_API[name]
+    return None
+
+
+def _guard_before(text, pos):
+    """(op, G) of the last `sizeof({{TYPE}}) <op> sizeof(G)` before pos."""
+    ms = list(re.finditer(r'sizeof\(\s*\{\{TYPE\}\}\s*\)\s*(<=|<|==|>=|>)\s*sizeof\(\s*([^)]+?)\s*\)', text[:pos]))
+    if not ms:
+        return None
+    # first comparison of the condition that dominates pos = first match after the last `if` keyword before pos
+    k = max(text.rfind('if (', 0, pos), text.rfind('if(', 0, pos))
+    ms2 = [m for m in ms if m.start() > k]
+    m = ms2[0] if ms2 else ms[-1]
+    return m.group(1), m.group(2)
+
+
+def _to_py_sites(text):
+    """[(api, cast, op, G, sign branch)] for `return PyLong_FromX((cast) value)` in CIntToPy."""
+    out = []
+    mu = re.search(r'if\s*\(\s*is_unsigned\s*\)\s*\{', text)
+    if not mu:
+        raise AnalysisError('CIntToPy no longer branches on is_unsigned')
+    lb = mu.end() - 1
+    depth, j = 0, lb
+    while j < len(text):
+        if text[j] == '{':
+            depth += 1
+        elif text[j] == '}':
+            depth -= 1
+            if depth == 0:
+                break
+        j += 1
+    u_end = j
+    me = re.match(r'\}\s*else\s*\{', text[u_end:])
+    if not me:
+        raise AnalysisError('CIntToPy: no else branch after if (is_unsigned)')
+    sb = u_end + me.end() - 1
+    depth, j = 0, sb
+    while j < len(text):
+        if text[j] == '{':
+            depth += 1
+        elif text[j] == '}':
+            depth -= 1
+            if depth == 0:
+                break
+        j += 1
+    s_end = j
+    for m in re.finditer(r'\breturn\s+(PyLong_From\w+)\s*\(\s*\(\s*([^()]+?)\s*\)\s*value\s*\)\s*;', text):
+        if lb < m.start() < u_end:
+            br = 'unsigned'
+        elif sb < m.start() < s_end:
+            br = 'signed'
+        else:
+            continue
+        g = _guard_before(text, m.start())
+        out.append((m.group(1), m.group(2), g[0] if g else None, g[1] if g else None, br, m.start()))
+    return out
+
+
+def _check_to_py(api, site):
+    name, cast, op, g, br, _pos = site
+    probs = []
+    pt = _api_type(api, name, 'param')
+    if pt is None:
+        return probs, False
+    if _norm_type(cast) != pt:
+        probs.append('passes (%s) value to %s, whose parameter is %s' % (cast, name, pt))
+    if g is None:
+        probs.append('calls %s without a sizeof guard' % name)
+        return probs, True
+    if _norm_type(g) != pt:
+        probs.append('is guarded by sizeof({{TYPE}}) %s sizeof(%s) but converts through %s (%s): values that fit the guard type are truncated' % (op, g, name, pt))
+    g_unsigned = _norm_type(g).startswith('unsigned')
+    if br == 'unsigned' and not g_unsigned and op != '<':
+        probs.append('in the unsigned branch converts through the signed type %s under `%s`: an unsigned value of the same size does not fit (strict < is required)' % (g, op))
+    if br == 'signed' and g_unsigned:
+        probs.append('in the signed branch converts through the unsigned type %s: negative values wrap' % g)
+    if op not in ('<', '<='):
+        probs.append('is guarded by `%s`, which does not bound the size of {{TYPE}} from above' % op)
+    return probs, True
+
+
+def rule_api(ctx):
+    cat = ctx.cat
+    api = tables.cpython_api()
+    r = Rule('C05-API', 'C-API converters are used with the type the CPython headers declare, under a size guard for that same type', floor=8)
+    rel = 'Cython/Utility/' + TC
+    impl = P.section_texts(cat, TC, 'CIntFromPy').get('impl')
+    text = strip_c_comments(impl.raw)
+    unknown = 0
+    for m in re.finditer(r'\b__PYX_VERIFY_RETURN_INT_EXC\s*\(', text):
+        rp = match_paren(text, m.end() - 1)
+        args = [a.strip() for a in split_args(text[m.end():rp])]
+        if len(args) != 3:
+            raise AnalysisError('__PYX_VERIFY_RETURN_INT_EXC used with %d arguments' % len(args))
+        mc = re.fullmatch(r'(\w+)\s*\(.*\)', args[2], re.S)
+        if not mc:
+            unknown += 1
+            continue
+        fname, ft = mc.group(1), args[1]
+        key = 'CIntFromPy:%s' % fname
+        line = impl.line + text[:m.start()].count('\n')
+        rt = _api_type(api, fname, 'ret')
+        if rt is None:
+            unknown += 1
+            continue
+        g = _guard_before(text, m.start())
+        r.inst(key, sample='%s: VERIFY(%s) returns %s, guard %s' % (key, ft, rt, g))
+        if _norm_type(ft) != rt:
+            r.violate(key + ':functype', rel, line, '__PYX_VERIFY_RETURN_INT_EXC stores the result of %s (returns %s) in a %s: large values are truncated before the range check' % (fname, rt, ft))
+        if g is None or g[0] not in ('<', '<='):
+            r.violate(key + ':guard', rel, line, '%s is used without a `sizeof({{TYPE}}) <= sizeof(...)` guard' % fname)
+        elif _norm_type(g[1]) != _norm_type(ft):
+            r.violate(key + ':guard', rel, line, '%s (range %s) is used when sizeof({{TYPE}}) %s sizeof(%s): for a {{TYPE}} wider than %s fitting values raise OverflowError'
+                      % (fname, ft, g[0], g[1], ft))
+    to = P.section_texts(cat, TC, 'CIntToPy').get('impl')
+    ttext = strip_c_comments(to.raw)
+    sites = _to_py_sites(ttext)
+    for site in sites:
+        key = 'CIntToPy:%s:%s' % (site[4], site[0])
+        probs, known = _check_to_py(api, site)
+        if not known:
+            unknown += 1
+            continue
+        r.inst(key, sample='%s: (%s) value under sizeof(T) %s sizeof(%s)' % (key, site[1], site[2], site[3]))
+        for p in probs:
+            r.violate(key, rel, to.line + ttext[:site[5]].count('\n'), 'CIntToPy %s' % p)
+    if not any(s[4] == 'unsigned' for s in sites) or not any(s[4] == 'signed' for s in sites):
+        raise AnalysisError('CIntToPy: C-API conversions not found in both sign branches')
+    r.info('%d converter uses could not be compared with the installed headers' % unknown)
+    pp, _k = _check_to_py(api, ('PyLong_FromLong', 'long', '<=', 'long', 'unsigned', 0))
+    r.positive_control(bool(pp), 'unsigned value of the same size converted through long')
+    return r
+
+
+
 def run(ctx):
-    return [rule_ctx(ctx), rule_sent(ctx)]
+    return [rule_ctx(ctx), rule_sent(ctx), rule_digits(ctx), rule_api(ctx)]
+
+
+MUTATIONS = [
+    # (file, single edit, expected rule) - all tried on a scratch copy; every one was reported with a message naming the edited construct
+    ('Cython/Compiler/PyrexTypes.py', 'CIntLike.create_from_py_utility_code: drop the "IS_ENUM" context key', 'C05-CTX'),
+    ('Cython/Compiler/PyrexTypes.py', 'CIntLike.create_to_py_utility_code: TO_PY_FUNCTION="__Pyx_PyInt_From_" + spec while self.to_py_function keeps __Pyx_PyLong_From_', 'C05-CTX'),
+    ('Cython/Compiler/PyrexTypes.py', 'CIntLike.create_from_py_utility_code: TYPE=c_long_type.empty_declaration_code()', 'C05-CTX'),
+    ('Cython/Compiler/PyrexTypes.py', 'CTypedefType.create_from_py_utility_code: FROM_PY_FUNCTION=self.to_py_function', 'C05-CTX'),
+    ('Cython/Utility/TypeConversion.c', '__Pyx_raise_overflow_{{FROM_PY_FUNCTION}}: return ({{TYPE}}) 0', 'C05-SENT'),
+    ('Cython/Utility/TypeConversion.c', '__PYX__VERIFY_RETURN_INT: return (target_type) 0 on a failed C-API call', 'C05-SENT'),
+    ('Cython/Utility/TypeConversion.c', '__PYX_VERIFY_RETURN_INT_EXC(long, long, PyLong_AsLong(x)) (target type not {{TYPE}})', 'C05-SENT'),
+    ('Cython/Utility/TypeConversion.c', 'enum fallback: val = ({{TYPE}}) 0 after PyErr_SetString(RuntimeError)', 'C05-SENT'),
+    ('Cython/Compiler/PyrexTypes.py', 'CIntType.exception_value = -2', 'C05-SENT'),
+    ('Cython/Compiler/PyrexTypes.py', 'CType.error_condition: PyErr_Occurred() only appended `if self.exception_check and self.is_string`', 'C05-SENT'),
+    ('Cython/Utility/TypeConversion.c', "negative branch: pylong_join(_size-1, 'digits') under size == {{_size}}", 'C05-DIGITS'),
+    ('Cython/Utility/TypeConversion.c', 'positive signed branch: default-typed join verified as `long` instead of `unsigned long`', 'C05-DIGITS'),
+    ('Cython/Utility/TypeConversion.c', '__PYX_VERIFY_RETURN_INT_EXC({{TYPE}}, long, PyLong_AsLongLong(x))', 'C05-API'),
+    ('Cython/Utility/TypeConversion.c', 'PyLong_AsLong path guarded by sizeof({{TYPE}}) <= sizeof(PY_LONG_LONG)', 'C05-API'),
+    ('Cython/Utility/TypeConversion.c', 'CIntToPy unsigned branch: sizeof({{TYPE}}) <= sizeof(long) -> PyLong_FromLong', 'C05-API'),
+    ('Cython/Utility/TypeConversion.c', 'CIntToPy: PyLong_FromLongLong((long) value)', 'C05-API'),
+    # behaviour-preserving edits, all silent
+    ('Cython/Utility/TypeConversion.c', 'negative branch loop over (2, 3) instead of (2, 3, 4) (falls through to the generic path)', 'silent'),
+    ('Cython/Utility/TypeConversion.c', 'unsigned branch: loop variable _size renamed to n', 'silent'),
+    ('Cython/Compiler/PyrexTypes.py', 'create_to_py_utility_code: context keys reordered, TYPE through a local variable', 'silent'),
+    ('Cython/Compiler/PyrexTypes.py', 'CType.error_condition: `if conds:` / early return instead of `if len(conds) > 0: ... else:`', 'silent'),
+]
